@@ -14,7 +14,9 @@
 // Every expanded state is additionally replayed as ONE program through
 // LEnv.LoadString with the production reader: same effects, the value of the
 // last form (or the first error, which stops the load), and the loader's
-// package restored.
+// package restored.  Transitions whose operation is a qualified reference under
+// a lexical binding of the same name (ops.go shadowOps) are executed in both
+// modes.
 package c08
 
 import (
@@ -152,7 +154,7 @@ func runProgram(ops []*opDef, stdlib bool) result {
 	ds = append(ds, r.checkTable(st, userPkg)...)
 	res.diffs = ds
 	if len(ds) > 0 {
-		res.class = "program:" + ds[0].kind
+		res.class = "program:" + res.lastOp.Class + ":" + ds[0].kind
 	}
 	return res
 }
@@ -249,7 +251,12 @@ func (e *explorer) judge(k kase, res result) {
 	e.r.Violate("c08", res.class, k, res.pred.String()+" and the model's table", res.got+" || "+diffsString(res.diffs), note)
 }
 
-func (e *explorer) transition(hist []uint8, op int, idx int64) {
+func (e *explorer) transition(hist []uint8, op int, idx int64, alsoProgram bool) {
+	if alsoProgram && e.ops[op].prog {
+		// the same history + operation as ONE source text through LoadString
+		h := append(append(make([]uint8, 0, len(hist)+1), hist...), uint8(op))
+		e.program(h)
+	}
 	k := e.kaseOf("forms", hist, op)
 	ops := make([]*opDef, 0, len(hist)+1)
 	for _, h := range hist {
@@ -333,9 +340,13 @@ func (e *explorer) program(hist []uint8) {
 }
 
 func run(r *core.Run) {
-	depth := 4
+	// quick: every history of length <= 4 over the quick alphabet.
+	// thorough: every history of length <= 5 over the full alphabet, plus every
+	// extension of a length-5 state by one operation of the reduced (core)
+	// alphabet.
+	depth, fullDepth := 4, 4
 	if r.Thorough() {
-		depth = 6
+		depth, fullDepth = 6, 5
 	}
 	ops := alphabet(r.Thorough())
 	e := &explorer{r: r, ops: ops}
@@ -366,6 +377,17 @@ func run(r *core.Run) {
 	r.Bound("max_history_depth", depth)
 	r.Bound("forms_mode_runtime", fmt.Sprintf("standard library loaded for histories of length <= %d, core runtime (lisp + user) beyond; program-mode loads: standard library + production reader", stdlibDepth))
 	r.Bound("alphabet_size", len(ops))
+	r.Bound("full_alphabet_up_to_depth", fullDepth)
+	var coreNames []string
+	for _, o := range ops {
+		if o.core {
+			coreNames = append(coreNames, o.src)
+		}
+	}
+	if depth > fullDepth {
+		r.Bound("reduced_alphabet_beyond", coreNames)
+		r.Bound("reduced_alphabet_size", len(coreNames))
+	}
 	r.Bound("alphabet", names)
 	r.Bound("packages", []string{"user", "p", "q", "+ every package of a fresh runtime with the standard library (read back, must stay untouched)"})
 	r.Bound("watched_names", watched)
@@ -374,7 +396,7 @@ func run(r *core.Run) {
 		"a function body ran in a package other than the caller's, a lexical binding shadowed a package binding, an unqualified name failed although another package binds it, " +
 		"a qualified reference crossed packages or reached an unexported binding, a copied binding differs from its source (snapshot), a load restored the package, " +
 		"use-package copied a binding, a macro expansion resolved at the call site, or a definition landed outside the top-level current package")
-	r.Assume("operations are evaluated one top-level form at a time with LEnv.Eval in the root environment (what the REPL does), so that in-package persists between operations; LEnv.LoadString restores the package and is checked separately (program mode, one load per expanded state, production reader)")
+	r.Assume("operations are evaluated one top-level form at a time with LEnv.Eval in the root environment (what the REPL does), so that in-package persists between operations; LEnv.LoadString restores the package and is checked separately (program mode with the production reader and the standard library: one load per expanded state, and one load per transition for every shadowed-qualified-reference operation at the full-alphabet levels)")
 	r.Assume("a qualified target (set 'p:a v) binds a in package p: docs/lang.md calls a qualified symbol 'another way to spell a name'")
 	r.Assume("set! only mutates an existing lexical or current-package binding and signals an error otherwise (docstring of set, error text of set!); the VALUE of set!, defun, defmacro is not specified and only its error/value class is compared")
 	r.Assume("errors are compared by condition name only; a reference through an unknown package, use-package of an unknown package and a qualified set into an unknown package are errors that create nothing")
@@ -386,23 +408,33 @@ func run(r *core.Run) {
 	type fstate struct{ hist []uint8 }
 	frontier := []fstate{{}}
 	seen := map[hkey]struct{}{hashKey(newState().key()): {}}
-	nops := int64(len(ops))
 	levels := []map[string]int64{}
 	maxDepth := 0
+	lastFull := false
 	for d := 1; d <= depth; d++ {
+		// operations of this level: the whole alphabet up to fullDepth, the
+		// reduced (core) alphabet beyond
+		full := d <= fullDepth
+		var sub []int
+		for i, o := range ops {
+			if full || o.core {
+				sub = append(sub, i)
+			}
+		}
+		nsub := int64(len(sub))
 		e.cands = e.cands[:0]
-		n := int64(len(frontier)) * nops
-		before := r.Transitions
+		n := int64(len(frontier)) * nsub
+		var done int64
 		core.ParallelRange(r, n, nil, func(_ struct{}, idx int64) {
-			i, j := idx/nops, int(idx%nops)
+			i, j := idx/nsub, int(idx%nsub)
 			if j == 0 {
 				e.program(frontier[i].hist)
 			}
-			e.transition(frontier[i].hist, j, idx)
+			e.transition(frontier[i].hist, sub[j], idx, full)
+			atomic.AddInt64(&done, 1)
 		})
-		done := atomic.LoadInt64(&r.Transitions) - before
 		if done < n {
-			levels = append(levels, map[string]int64{"depth": int64(d), "expanded_states": int64(len(frontier)), "transitions": done, "complete": 0})
+			levels = append(levels, map[string]int64{"depth": int64(d), "alphabet": nsub, "expanded_states": int64(len(frontier)), "transitions": done, "complete": 0})
 			break // ParallelRange recorded the cap
 		}
 		sort.Slice(e.cands, func(a, b int) bool { return e.cands[a].idx < e.cands[b].idx })
@@ -412,22 +444,23 @@ func run(r *core.Run) {
 				continue
 			}
 			seen[c.key] = struct{}{}
-			i, j := c.idx/nops, uint8(c.idx%nops)
+			i, j := c.idx/nsub, int(c.idx%nsub)
 			h := make([]uint8, len(frontier[i].hist)+1)
 			copy(h, frontier[i].hist)
-			h[len(h)-1] = j
+			h[len(h)-1] = uint8(sub[j])
 			next = append(next, fstate{hist: h})
 		}
-		levels = append(levels, map[string]int64{"depth": int64(d), "expanded_states": int64(len(frontier)), "transitions": done, "new_states": int64(len(next)), "complete": 1})
+		levels = append(levels, map[string]int64{"depth": int64(d), "alphabet": nsub, "expanded_states": int64(len(frontier)), "transitions": done, "new_states": int64(len(next)), "complete": 1})
 		maxDepth = d
+		lastFull = full
 		frontier = next
 		if len(frontier) == 0 {
 			break
 		}
 	}
-	// states first reached at the last level are not expanded, but their
-	// histories are still replayed as one program
-	if maxDepth == depth && len(frontier) > 0 && !r.Expired() {
+	// States first reached at the last level are not expanded; when that level
+	// ran the whole alphabet their histories are still replayed as one program.
+	if maxDepth == depth && lastFull && len(frontier) > 0 && !r.Expired() {
 		core.ParallelRange(r, int64(len(frontier)), nil, func(_ struct{}, i int64) {
 			e.program(frontier[i].hist)
 		})
